@@ -20,6 +20,8 @@ PROP = {'drive': ['Dsl'],
                        'C19_roundtrip_gpos1',
                        'C19_roundtrip_gpos_lists',
                        'C19_roundtrip_gpos2',
+                       'C19_roundtrip_gpos3',
+                       'C19_roundtrip_gpos4',
                        'C19_glyphlist_roundtrip',
                        'C19_total_partial'],
  'areas': [('dsl', 6000, 60000)],
@@ -29,15 +31,18 @@ PROP = {'drive': ['Dsl'],
              'sets, any number of subtables and of lookups): glyph lists (C19_glyphlist_roundtrip), GSUB 1 with ranges '
              'and the 1.1/1.2 identification, GSUB 2, 3, 4, mixed GSUB descriptions (C19_roundtrip_gsub1..4, '
              'C19_roundtrip_lists), GPOS 1 (formats 1.1, 1.2), GPOS 2 (format 2.1 glyph pairs and format 2.2 class matrix, '
-             'in any order; readGpos2 taking the line break after the last matrix row is part of the proof) and mixed '
-             'GPOS descriptions (C19_roundtrip_gpos1, C19_roundtrip_gpos2, C19_roundtrip_gpos_lists); the small '
+             'in any order; readGpos2 taking the line break after the last matrix row is part of the proof), '
+             'GPOS 3 (cursive attachment) and GPOS 4 (mark-to-base), both modelled in round 2, and GPOS descriptions '
+             'mixing types 1-4 (C19_roundtrip_gpos1, C19_roundtrip_gpos2, C19_roundtrip_gpos3, C19_roundtrip_gpos4, '
+             'C19_roundtrip_gpos_lists); the small '
              'universes remain as kernel-evaluated examples',
-             'GSUB 5/6 and GPOS 3/4: parser and printer not modelled in Lean; the round trip Parse(Explain(l)) = l is '
-             'evaluated on the real code only (stream dsl.rtseed: lookups regenerated from the seed in the case line, '
-             'structural comparison in the harness, Lean side fixes the verdict), plus dsl.total and dsl.goroutines',
+             'GSUB 5/6 (contextual forms, in the notation also used for GPOS 7/8): parser and printer not modelled in '
+             'Lean; the round trip Parse(Explain(l)) = l is evaluated on the real code only (stream dsl.rtseed: lookups '
+             'regenerated from the seed in the case line, structural comparison in the harness, Lean side fixes the '
+             'verdict), plus dsl.total and dsl.goroutines',
              'C19_total_full (no unmodelled escape) is stated; C19_total_partial is proved for all fonts and texts: the '
-             'parser model (lexer, item supply, fatal, flags, glyph lists, GSUB 1-4 and GPOS 1-2 with several subtables) '
-             'returns lookups or an error with line >= 1 or stops at a GSUB 5/6 / GPOS 3/4 keyword, and never runs out of loop '
+             'parser model (lexer, item supply, fatal, flags, glyph lists, GSUB 1-4 and GPOS 1-4 with several subtables) '
+             'returns lookups or an error with line >= 1 or stops at a GSUB 5/6 keyword, and never runs out of loop '
              'fuel; for the other forms the real code is checked by stream dsl.total (outcome class and line >= 1)',
              'goroutine clause: C19_confluent/C19_terminates/C19_no_leak are about the process model; that the Go '
              'runtime implements unbuffered channels as the model says is trusted; the real code is observed by '
@@ -60,12 +65,14 @@ PROP = {'drive': ['Dsl'],
                  'least one subtable, coverage strictly ascending (canonical index order), glyph ids inside the font, '
                  'non-empty right-hand sides where the parser insists on them (GSUB 2 sequences, GSUB 4 ligature lists), '
                  'value-record fields in int16, GPOS 2.1 pairs in ascending order, GPOS 2.2 coverage ascending, class '
-                 'lists ascending by glyph with the classes 1..k all used, matrix of (k1+1) x (k2+1) entries',
+                 'lists ascending by glyph with the classes 1..k all used, matrix of (k1+1) x (k2+1) entries, GPOS 3 '
+                 'coverage ascending and non-empty with int16 anchors, GPOS 4 at least one mark record per subtable, mark '
+                 'and base glyphs ascending, mark classes exactly 0..k-1 (< 65536), k int16 anchors per base record',
                  'the models mirror the builder including the repairs 12 (NUL byte) and 13 (font without cmap), both '
                  'committed in /repo']}
 
 LEVEL = {'text': 'Proof (partial): Lean models of the lexer (token machine over Go-decoded UTF-8, line counting), of '
-         'Parse for lookup flags, glyph lists/sets/ranges/strings, GSUB 1-4 and GPOS 1-2, of ExplainGsub/ExplainGpos for the same, and a '
+         'Parse for lookup flags, glyph lists/sets/ranges/strings, GSUB 1-4 and GPOS 1-4, of ExplainGsub/ExplainGpos for the same, and a '
          'three-process model of the goroutine/channel structure with an arbitrary scheduler. Proved for all '
          'inputs: the lexer is total and ends in exactly one EOF/error item with lines >= 1 (C19_lex_total); every '
          'flag subset round-trips and the two flag tables regenerated from parser.go/explain.go coincide '
@@ -73,7 +80,7 @@ LEVEL = {'text': 'Proof (partial): Lean models of the lexer (token machine over 
          '(C19_confluent, C19_terminates) in which, for the repaired Parse, no process is blocked (C19_no_leak), '
          'while the unrepaired structure provably leaks the decoder goroutine (C19_leak_before_repair). Round '
          'trips parse(explain l) = l are proved for every font and lookup of the domain for glyph lists, GSUB 1-4, '
-         'GPOS 1 and GPOS 2 (formats 2.1 and 2.2) and for descriptions mixing them (induction over the structure: '
+         'GPOS 1, GPOS 2 (formats 2.1 and 2.2), GPOS 3 and GPOS 4 and for descriptions mixing them (induction over the structure: '
          'lexing of rendered pieces, a fragment logic for the parser, per-form lemmas). '
          'Tied to the code by output-exact correspondence (items with lines, Parse outcomes with line and error '
          'class, Explain text byte for byte) and by evaluating the round trip, totality and goroutine counts on '
